@@ -42,6 +42,45 @@ namespace R
       uint8_t amode;
    };
 
+   // position oracle (C06 formula) over the bytes of the outermost input
+   struct Pos
+   {
+      size_t byte, line, column;
+   };
+   inline Pos pos_of( const char* data, int off, int eol_kind, size_t b0, size_t l0, size_t c0 )
+   {
+      const T::PosF f = T::pos_formula( data, off, ( eol_kind == 2 || eol_kind == 4 ) ? '\r' : '\n', b0, l0, c0 );
+      return { f.byte, f.line, f.column };
+   }
+   inline Pos pos_of( const char* data, int off, int eol_kind )
+   {
+      return pos_of( data, off, eol_kind, T::g_ib, T::g_il, T::g_ic );
+   }
+   // RFC 3629: length of the well-formed UTF-8 sequence at p (n bytes available), 0 if none
+   inline int utf8_len( const char* p, int n )
+   {
+      if( n < 1 ) return 0;
+      const unsigned c0 = (unsigned char)p[ 0 ];
+      auto cont = [ & ]( int i ) { return i < n && ( (unsigned char)p[ i ] & 0xC0 ) == 0x80; };
+      if( c0 < 0x80 ) return 1;
+      if( c0 >= 0xC2 && c0 <= 0xDF ) return cont( 1 ) ? 2 : 0;
+      if( c0 >= 0xE0 && c0 <= 0xEF ) {
+         if( !cont( 1 ) || !cont( 2 ) ) return 0;
+         const unsigned c1 = (unsigned char)p[ 1 ];
+         if( c0 == 0xE0 && c1 < 0xA0 ) return 0;
+         if( c0 == 0xED && c1 > 0x9F ) return 0;
+         return 3;
+      }
+      if( c0 >= 0xF0 && c0 <= 0xF4 ) {
+         if( !cont( 1 ) || !cont( 2 ) || !cont( 3 ) ) return 0;
+         const unsigned c1 = (unsigned char)p[ 1 ];
+         if( c0 == 0xF0 && c1 < 0x90 ) return 0;
+         if( c0 == 0xF4 && c1 > 0x8F ) return 0;
+         return 4;
+      }
+      return 0;
+   }
+
    struct Interp
    {
       const char* data = nullptr;  // == T::g_begin
@@ -340,8 +379,17 @@ namespace R
                const int n = eol_len( pos, end );
                return n < 0 ? fail() : ok( pos + n );
             }
-            case BOF: return pos == 0 ? ok( pos ) : fail();
-            case BOL: return ( pos == 0 || eol_ch( ch( pos - 1 ) ) ) ? ok( pos ) : fail();
+            case BOF: return ( g_ib + size_t( pos ) == 0 ) ? ok( pos ) : fail();
+            case BOL: return pos_of( data, pos, eol_kind, g_ib, g_il, g_ic ).column == 1 ? ok( pos ) : fail();
+            case ONE_LF: return ( pos < end && ch( pos ) == '\n' ) ? ok( pos + 1 ) : fail();
+            case ONE_CR: return ( pos < end && ch( pos ) == '\r' ) ? ok( pos + 1 ) : fail();
+            case NOT_ONE_LF: return ( pos < end && ch( pos ) != '\n' ) ? ok( pos + 1 ) : fail();
+            case STRING_CRLF: return ( pos + 2 <= end && ch( pos ) == '\r' && ch( pos + 1 ) == '\n' ) ? ok( pos + 2 ) : fail();
+            case SEVEN: return ( pos < end && (unsigned char)ch( pos ) < 128 ) ? ok( pos + 1 ) : fail();
+            case UTF8_ANY: {
+               const int n = utf8_len( data + pos, end - pos );
+               return n > 0 ? ok( pos + n ) : fail();
+            }
             case BYTES2: return pos + 2 <= end ? ok( pos + 2 ) : fail();
             case EVERYTHING: return ok( end );
             case RAISE_MSG: return { RAISE, 0, WHO_RAISE_MSG, pos, pos, -1 };
@@ -544,25 +592,5 @@ namespace R
          return false;
       }
    };
-
-   // position oracle (C06 formula) over the bytes of the outermost input
-   struct Pos
-   {
-      size_t byte, line, column;
-   };
-   inline Pos pos_of( const char* data, int off, int eol_kind, size_t b0 = 0, size_t l0 = 1, size_t c0 = 1 )
-   {
-      const char e = ( eol_kind == 2 || eol_kind == 4 ) ? '\r' : '\n';
-      Pos r{ b0 + size_t( off ), l0, c0 };
-      for( int i = 0; i < off; ++i ) {
-         if( data[ i ] == e ) {
-            ++r.line;
-            r.column = 1;
-         }
-         else
-            ++r.column;
-      }
-      return r;
-   }
 
 }  // namespace R
